@@ -85,7 +85,7 @@ def gen(cs, ndates=(3, 8), nops=(1, 6), fi=False):
             names = [k["name"] for k in skids] if skids else list(tickers)
             secnames = [k["name"] for k in skids if k["type"] != "strat"] if skids else list(tickers)
             kind = rng.choice(["adjust", "adjust", "allocate_child", "allocate_child", "allocate_self", "rebalance", "rebalance", "rebalance_base",
-                               "close", "flatten", "transact", "sec_transact", "update", "read"])
+                               "close", "flatten", "transact", "sec_transact", "update", "read", "batch", "batch"])
             upd = rng.random() < 0.85
             a = capital * rng.uniform(-0.2, 0.3)
             if kind == "adjust":
@@ -111,6 +111,39 @@ def gen(cs, ndates=(3, 8), nops=(1, 6), fi=False):
                 q = rng.randint(-300, 300) if integer else rng.uniform(-300, 300)
                 day.append({"op": "sec_transact", "node": path, "child": rng.choice(secnames), "q": q,
                             "pmult": rng.uniform(0.97, 1.03) if (spread and rng.random() < 0.6) else None, "update": upd})
+            elif kind == "batch" and secnames:
+                # several mutators back to back with no read in between (round trips, buys then sells, transfers)
+                sub = []
+                t0 = rng.choice(secnames)
+                q0 = rng.randint(1, 300) if integer else rng.uniform(1, 300)
+                style = rng.choice(["roundtrip", "roundtrip", "mixed"])
+                if style == "roundtrip":
+                    sgn = rng.choice([1, -1])
+                    pm = (lambda: rng.uniform(0.97, 1.03) if (spread and rng.random() < 0.6) else None)
+                    use_sec = rng.random() < 0.6
+                    parts = [sgn * q0, -sgn * q0] if rng.random() < 0.6 else [sgn * q0, -sgn * (q0 // 2 if integer else q0 / 2), -sgn * (q0 - (q0 // 2 if integer else q0 / 2))]
+                    for qq in parts:
+                        if qq == 0:
+                            continue
+                        if use_sec:
+                            sub.append({"op": "sec_transact", "node": path, "child": t0, "q": qq, "pmult": pm(), "update": rng.random() < 0.7})
+                        else:
+                            sub.append({"op": "transact", "node": path, "child": t0, "q": qq, "update": rng.random() < 0.7})
+                else:
+                    for _j in range(rng.randint(2, 4)):
+                        k2 = rng.choice(["sec_transact", "transact", "adjust", "allocate_child"])
+                        if k2 == "adjust":
+                            sub.append({"op": "adjust", "node": path, "amount": capital * rng.uniform(-0.05, 0.1), "flow": rng.random() < 0.5, "update": rng.random() < 0.7})
+                        elif k2 == "allocate_child":
+                            sub.append({"op": "allocate", "node": path, "child": rng.choice(secnames), "amount": capital * rng.uniform(-0.1, 0.15), "update": True})
+                        else:
+                            qq = rng.randint(-300, 300) if integer else rng.uniform(-300, 300)
+                            if k2 == "sec_transact":
+                                sub.append({"op": "sec_transact", "node": path, "child": rng.choice(secnames), "q": qq,
+                                            "pmult": rng.uniform(0.97, 1.03) if (spread and rng.random() < 0.5) else None, "update": rng.random() < 0.7})
+                            else:
+                                sub.append({"op": "transact", "node": path, "child": rng.choice(secnames), "q": qq, "update": rng.random() < 0.7})
+                day.append({"op": "batch", "node": path, "ops": sub})
             elif kind == "update":
                 day.append({"op": "update"})
             elif kind == "read":
@@ -167,7 +200,7 @@ def signature(spec):
     def shape(kids):
         return sorted(repr(k["type"] if k["type"] != "strat" else ("strat", tuple(shape(k["children"])))) for k in kids)
 
-    kinds = sorted({o["op"] for day in spec["ops"] for o in day})
+    kinds = sorted({o["op"] for day in spec["ops"] for o in day} | {"batch:" + x["op"] for day in spec["ops"] for o in day if o["op"] == "batch" for x in o["ops"]})
     return [repr(shape(spec["tree"])), spec["integer"], spec["comm"], spec["bidoffer"] is not None, kinds, len(spec["ops"])]
 
 
@@ -233,6 +266,8 @@ class Driver(object):
     def _guard(self, op, node):
         root = self.root
         k = op["op"]
+        if k == "batch":
+            return None
         if k == "adjust" and node is not root and not op["flow"] and abs(node._last_value + node._net_flows) < 1e-9:
             return "unfunded sub-strategy"
         if k in ("update", "read", "adjust"):
@@ -271,6 +306,42 @@ class Driver(object):
                 return "extreme leverage inside target"
         return None
 
+    def _apply(self, op, node, info):
+        """one mutator call on the real tree - no reads of refreshing properties"""
+        root = self.root
+        k = op["op"]
+        if k == "adjust":
+            node.adjust(op["amount"], update=op["update"], flow=op["flow"])
+            info["ext_flow" if op["flow"] else "ext_nonflow"] += op["amount"]
+            info["direct"].append((op["node"], bool(op["flow"]), op["amount"]))
+        elif k == "allocate":
+            node.allocate(op["amount"], child=op["child"], update=op["update"])
+        elif k == "rebalance":
+            if op["base"] is None:
+                node.rebalance(op["weight"], op["child"], update=op["update"])
+            else:
+                node.rebalance(op["weight"], op["child"], base=op["base"], update=op["update"])
+        elif k == "close":
+            node.close(op["child"], update=op["update"])
+        elif k == "flatten":
+            node.flatten()
+        elif k == "transact":
+            node.transact(op["q"], child=op["child"], update=op["update"])
+        elif k == "sec_transact":
+            c = node.children.get(op["child"])
+            if c is None:
+                node._create_child_if_needed(op["child"])
+                c = node.children[op["child"]]
+            if op.get("pmult") is not None:
+                px = float(self.data[op["child"]].iloc[self.di]) * op["pmult"]   # from the input frame: no read of the live tree
+                c.transact(op["q"], update=op["update"], price=px)
+            else:
+                c.transact(op["q"], update=op["update"])
+        elif k == "update":
+            root.update(self.dt)
+        elif k == "read":
+            getattr(node, op["prop"])
+
     def exec_op(self, op):
         root = self.root
         node = resolve(root, op["node"]) if "node" in op else root
@@ -280,44 +351,23 @@ class Driver(object):
             return
         self._hook("before_op", op)
         mark = len(ins.EV)
-        info = {"mark": mark, "ext_flow": 0.0, "ext_nonflow": 0.0, "exc": None}
+        info = {"mark": mark, "ext_flow": 0.0, "ext_nonflow": 0.0, "exc": None, "direct": []}
         k = op["op"]
         try:
-            if k == "adjust":
-                node.adjust(op["amount"], update=op["update"], flow=op["flow"])
-                if node is root:
-                    info["ext_flow" if op["flow"] else "ext_nonflow"] = op["amount"]
-                else:
-                    # capital appearing in a sub-strategy out of nowhere is external to the tree as well
-                    info["ext_flow" if op["flow"] else "ext_nonflow"] = op["amount"]
-            elif k == "allocate":
-                node.allocate(op["amount"], child=op["child"], update=op["update"])
-            elif k == "rebalance":
-                if op["base"] is None:
-                    node.rebalance(op["weight"], op["child"], update=op["update"])
-                else:
-                    node.rebalance(op["weight"], op["child"], base=op["base"], update=op["update"])
-            elif k == "close":
-                node.close(op["child"], update=op["update"])
-            elif k == "flatten":
-                node.flatten()
-            elif k == "transact":
-                node.transact(op["q"], child=op["child"], update=op["update"])
-            elif k == "sec_transact":
-                c = node.children.get(op["child"])
-                if c is None:
-                    node._create_child_if_needed(op["child"])
-                    c = node.children[op["child"]]
-                if op.get("pmult") is not None:
-                    px = c.price * op["pmult"]
-                    mark = info["mark"] = len(ins.EV)
-                    c.transact(op["q"], update=op["update"], price=px)
-                else:
-                    c.transact(op["q"], update=op["update"])
-            elif k == "update":
-                root.update(self.dt)
-            elif k == "read":
-                getattr(node, op["prop"])
+            if k == "batch":
+                need_update = False
+                for sub in op["ops"]:
+                    n2 = resolve(root, sub["node"])
+                    if self._guard(sub, n2):
+                        common.bump(self.cnt, "ops_skipped")
+                        continue
+                    self._apply(sub, n2, info)
+                    common.bump(self.cnt, "batch_subops")
+                    if sub.get("update") is False:
+                        need_update = True
+                op = dict(op, update=(False if need_update else True))
+            else:
+                self._apply(op, node, info)
             if op.get("update") is not False:
                 self._hook("pending", op)
             if op.get("update") is False:
